@@ -322,11 +322,14 @@ def to_coq(case, out):
 
 # ------------------------------------------------------------------ generators
 
-def random_column(rng, n, kind=None):
+def random_column(rng, n, kind=None, special=None):
+    """special = (scale, grid) from c13.special_grid: every interval column of the context uses it"""
     kind = kind or rng.choice(['interval', 'interval_np', 'set', 'attr'])
     if kind in ('interval', 'interval_np'):
         g = rng.randint(1, 4)
         grid = sorted(rng.sample(range(-4, 9), g))
+        if special is not None:
+            grid = sorted(rng.sample(special[1], min(len(special[1]), rng.randint(2, 4))))
         style = rng.choice(['mixed', 'mixed', 'points', 'proper', 'nested'])
         data = []
         for i in range(n):
@@ -464,7 +467,8 @@ def random_context(rng, max_rows):
     n = rng.randint(1, max_rows)
     m = rng.choice([1, 1, 2, 2, 3])
     shape = rng.choice(['any', 'any', 'tall', 'wide'])
-    cols = [random_column(rng, n) for _ in range(m)]
+    special = c13.special_grid(rng) if rng.random() < 0.25 else None
+    cols = [random_column(rng, n, None, special) for _ in range(m)]
     if shape == 'tall':        # more objects than binary attributes
         n = max(n, min(max_rows, 5))
         cols = [random_column(rng, n, rng.choice(['attr', 'attr', 'set'])) for _ in range(rng.choice([1, 2]))]
@@ -474,8 +478,8 @@ def random_context(rng, max_rows):
                 c['grid'] = c['grid'][:1]
     elif shape == 'wide':
         n = min(n, 3)
-        cols = [random_column(rng, n, rng.choice(['interval', 'interval_np', 'set'])) for _ in range(m)]
-    scale = rng.choice([1, 2, 4])
+        cols = [random_column(rng, n, rng.choice(['interval', 'interval_np', 'set']), special) for _ in range(m)]
+    scale = special[0] if special is not None else rng.choice([1, 2, 4])
     return base_ctx(rng, n, cols, scale), cols
 
 
@@ -487,19 +491,20 @@ def history_cases(rng, max_rows):
     n = rng.randint(2, max_rows)
     m = rng.choice([1, 1, 2, 2, 3])
     kinds = [rng.choice(['interval', 'interval_np', 'set', 'attr']) for _ in range(m)]
-    before = [random_column(rng, n, k) for k in kinds]
+    special = c13.special_grid(rng) if rng.random() < 0.25 else None
+    before = [random_column(rng, n, k, special) for k in kinds]
     after = []
     which = set(rng.sample(range(m), rng.randint(1, m)))
     for j, k in enumerate(kinds):
         if j in which:
             for _ in range(5):
-                c = random_column(rng, n, k)
+                c = random_column(rng, n, k, special)
                 if c['data'] != before[j]['data']:
                     break
             after.append(c)
         else:
             after.append(before[j])
-    ctx = base_ctx(rng, n, after, rng.choice([1, 2, 4]))
+    ctx = base_ctx(rng, n, after, special[0] if special is not None else rng.choice([1, 2, 4]))
     hist = {'before': [{'kind': c['kind'], 'data': c['data']} for c in before],
             'pre_ops': rng.sample(PRE_OPS, rng.randint(1, len(PRE_OPS))),
             'how': rng.choice(['data_setter', 'data_setter', 'ps_setter']),
@@ -577,6 +582,9 @@ def stats(case):
          'origin': case.get('origin', ''), 'shape': 'objects<=bin_attrs' if case['n'] <= nbin else 'objects>bin_attrs'}
     if case['op'] in (5, 6):
         d['path'] = 'objectwise' if case['thr'] < nbin else 'binarise'
+    d['grid'] = 'fine 2^-30' if case.get('scale', 1) == 2 ** 30 else (
+        'big ints' if any(abs(x) >= 2 ** 24 for c in case['cols'] if c['kind'].startswith('interval')
+                          for v in c['data'] for x in v) else 'small')
     d['name_order'] = 'same' if attr_order(case) == list(range(len(case['cols']))) else 'permuted'
     if case.get('history'):
         d['history'] = case['history'].get('how', '')
